@@ -53,7 +53,10 @@ func DecodeMetadata(input any, result any) error {
 	if v.Kind() == reflect.Struct {
 		f := v.FieldByName("Properties")
 		if f.IsValid() && f.Kind() == reflect.Map {
-			input = f.Interface().(map[string]string)
+			// Only use the field if it has the expected type; anything else is reported by the cast below
+			if props, ok := f.Interface().(map[string]string); ok {
+				input = props
+			}
 		}
 	}
 
